@@ -44,8 +44,8 @@ M = [
   "        elif res_def != term:\n            res_unit = _unit_from_term(res_def)\n"
   "            if isinstance(num, Fraction):\n                num = ONE"),
  ("c02_rtruediv_not_inverting", "C02", INIT,
-  "            return (other / self.amount) * self.unit ** -1\n",
-  "            return (other * self.amount) * self.unit ** -1\n"),
+  "            return (other / self.amount * amnt) * unit\n",
+  "            return (other * self.amount * amnt) * unit\n"),
  ("c02_cache_key_without_operator", "C02", INIT,
   "                return _op_cache[(operator.truediv, self, other)]",
   "                return _op_cache[(operator.mul, self, other)]"),
